@@ -23,7 +23,7 @@ ASSUMPTIONS = [
     "for a refused cross-project operation only: error class, no foreign pair recorded, tables consistent and unchanged for pairs not named by the op",
 ]
 REQUIRED_LABELS = {
-    "quick": ["reconnect_after_disconnect", "list_overlap", "freed_slot_middle", "cross_project", "self_loop", "mixed_disconnect_list"],
+    "quick": ["reconnect_after_disconnect", "list_overlap", "freed_slot_middle", "cross_project", "self_loop", "mixed_disconnect_list", "other_project_linked"],
     "thorough": ["reconnect_after_disconnect", "list_overlap", "freed_slot_middle", "cross_project", "self_loop", "mixed_disconnect_list"],
 }
 
@@ -223,7 +223,7 @@ def op_list(draw, max_modules=8, max_ops=30, with_save_load=False):
     n = n0 + 1  # + output
     ops = []
     k = draw(st.integers(1, max_ops))
-    kinds = ["rshift", "lshift", "rshift_dis", "lshift_dis", "rshift_list", "lshift_list", "chain_r", "chain_l", "mlist_r_dis", "mlist_r_list", "mlist_l_list", "chain_r_list", "chain_l_list", "connect", "connect_single", "x", "new"]
+    kinds = ["rshift", "lshift", "rshift_dis", "lshift_dis", "rshift_list", "lshift_list", "chain_r", "chain_l", "mlist_r_dis", "mlist_r_list", "mlist_l_list", "chain_r_list", "chain_l_list", "connect", "connect_single", "x", "x", "xlink", "new"]
     weights = kinds + ["rshift", "lshift", "rshift_dis", "lshift_dis", "connect", "connect", "rshift_list"]
     if with_save_load:
         weights = weights + ["save_load", "save_load", "save_load", "save", "save"]
@@ -256,6 +256,8 @@ def op_list(draw, max_modules=8, max_ops=30, with_save_load=False):
             ops.append(["connect_single", [idx(), draw(st.booleans())], [idx(), draw(st.booleans())]])
         elif kind == "x":
             ops.append(["x", draw(st.sampled_from(["rshift", "lshift", "connect_to", "connect_from", "connect_list", "dis"])), idx(), draw(st.integers(1, 2))])
+        elif kind == "xlink":
+            ops.append(["xlink", draw(st.integers(0, 2)), draw(st.integers(0, 2)), draw(st.booleans())])
         elif kind == "save_load":
             ops.append(["save_load"])
         elif kind == "save":
@@ -273,7 +275,16 @@ def run_ops(ctx, case, prop="C07", on_save_load=None):
     labels = set()
     for step, op in enumerate(case["ops"]):
         before = lm.tables(world.project)
+        if op[0] == "xlink":
+            # the other project is used in its own right; this project must not notice
+            world.apply(op)
+            lm.check_consistency(world.foreign, None, prop)
+            if lm.tables(world.project) != before:
+                raise PropertyViolation(prop + ".other_project_op_leaks", "step %d: a link operation inside another project changed this project's tables" % step)
+            labels.add("other_project_linked")
+            continue
         if op[0] == "x":
+            foreign_before = lm.tables(world.foreign)
             err = world.apply(op)
             labels.add("cross_project")
             if not isinstance(err, ModuleOwnershipError):
@@ -281,9 +292,8 @@ def run_ops(ctx, case, prop="C07", on_save_load=None):
             lm.check_consistency(world.project, E, prop)
             if lm.tables(world.project) != before:
                 raise PropertyViolation(prop + ".cross_project.unchanged", "step %d %r changed the link tables" % (step, op))
-            for fm in world.foreign.modules:
-                if fm.in_links or fm.out_links:
-                    raise PropertyViolation(prop + ".cross_project.foreign_tables", "foreign project module %d got links %r %r" % (fm.index, fm.in_links, fm.out_links))
+            if lm.tables(world.foreign) != foreign_before:
+                raise PropertyViolation(prop + ".cross_project.foreign_tables", "the refused operation changed the other project's tables: %r -> %r" % (foreign_before, lm.tables(world.foreign)))
             continue
         if op[0] == "save_load":
             if on_save_load is None:
